@@ -81,9 +81,37 @@ fn check_diff_with<T: DiffableStr + ?Sized>(alg: Algorithm, old: &T, new: &T, ki
         let mut expansions = 0;
         let mut segs = 0;
         let mut emphasised_any = false;
-        for op in diff.ops() {
+        for (op_no, op) in diff.ops().iter().enumerate() {
             let plain: Vec<_> = diff.iter_changes(op).collect();
             let is_replace = op.tag() == DiffTag::Replace;
+            // the expansion does not depend on how its iterator is consumed, nor on having been
+            // asked for before (first two ops and the last one of every diff)
+            if (op_no < 2 || op_no + 1 == diff.ops().len()) && modes_wanted(old.as_bytes().len() + new.as_bytes().len(), 5) {
+                let flat = |c: similar::InlineChange<'_, T>| -> Flat {
+                    (
+                        c.tag(),
+                        c.old_index(),
+                        c.new_index(),
+                        c.values().iter().map(|(e, s)| (*e, s.as_bytes().to_vec())).collect(),
+                        c.missing_newline(),
+                    )
+                };
+                consumption_modes(
+                    &|| format!("{} {} op {:?}: iter_inline_changes_deadline(None)", kind, alg_name(alg), op),
+                    || diff.iter_inline_changes_deadline(op, None),
+                    flat,
+                )?;
+                for c in diff.iter_inline_changes_deadline(op, None) {
+                    let lossy_strings: Vec<(bool, String)> = c.iter_strings_lossy().map(|(e, s)| (e, s.to_string())).collect();
+                    let want: Vec<(bool, String)> = c.values().iter().map(|(e, s)| (*e, s.to_string_lossy().to_string())).collect();
+                    if lossy_strings != want {
+                        return Err(format!(
+                            "{} {} op {:?}: iter_strings_lossy() gives {:?}, values() decode to {:?}",
+                            kind, alg_name(alg), op, lossy_strings, want
+                        ));
+                    }
+                }
+            }
             // never-expiring clock first: how many expiry points does this op have?
             let (_, probes) = inline_of(&diff, op, 1);
             let modes: Vec<u64> = if is_replace {
@@ -229,6 +257,7 @@ pub fn run(cfg: &RunCfg) -> CheckReport {
         "every ordered pair of texts of each listed family (all strings of up to L letters; deduplicated) x 3 algorithms x {[u8], str} x every op of the line diff x inline deadline mode {none, default 500 ms deadline under a never-expiring virtual clock, virtual clock expiring at probe k for every k the op's inline diff makes}; one case = one text pair. Oracle: same tags/indices as the plain expansion, segments concatenate to the line, emphasis only inside Delete/Insert of a Replace op and never over CR/LF, missing_newline agrees. Non-trivial: some change carries an emphasised segment. Pairs are distinct within a family.",
     );
     rep.assume("H1 virtual clock answers the inline diff's deadline probes");
+    rep.assume("consumption modes and iter_strings_lossy: the inline expansion of the first two and the last op; quick tier on text pairs of up to 5 bytes in total, thorough tier on every pair");
     rep.extra.insert("similar_unicode_feature".into(), json!(unicode));
     if let Ok(side) = std::env::var("VERIF_C16_SIDE") {
         if let Some(v) = std::fs::read_to_string(&side)
